@@ -4,6 +4,7 @@
 -/
 import Sbepp.Drive.Common
 import Sbepp.Drive.C15
+import Sbepp.Drive.C14
 import Sbepp.Drive.Wire
 
 open Sbepp.Drive
@@ -21,6 +22,7 @@ def dispatch (line : String) : String :=
   | cmd :: args =>
     match cmd with
     | "bits" => C15.handle args
+    | "sarr" => C14.handle args
     | _ => "bad-op"
 
 partial def loop (h : IO.FS.Stream) (out : IO.FS.Stream) : IO Unit := do
